@@ -73,7 +73,7 @@ def check(ctx):
     ctx.assume("term expansion assumes no aliasing writes between a definition and its use inside one function")
     for oid, fam, text, floor, fn in [
         ('columns', 'R10', "header list == property's ten names in order; row entry i derives from task.<column i>; header and "
-                           "rows iterate the same custom column list", 23, ob_columns),
+                           "rows iterate the same custom column list", 33, ob_columns),
         ('reader-keys', 'R10', "TaskRaw keyword K is read from row[header['K']] for exactly the ten names, all other headers go "
                                "to **kwargs, header map is name -> index", 12, ob_reader_keys),
         ('converters', 'R10', "writer form and reader parser of every column are an inverse pair (date format %d.%m.%y on both "
@@ -83,10 +83,10 @@ def check(ctx):
         ('fields-covered', 'R10', "id, name, resource, start, end, estimate, spent, milestone, min_start and custom attributes "
                                   "travel Task -> TaskRaw -> row -> TaskRaw -> Task", 10, ob_fields),
         ('no-leak', 'R9', "generic attribute copies exclude TaskRaw's structural keys (raw -> Task) and Task's private fields "
-                          "(Task -> raw)", 3, ob_no_leak),
+                          "(Task -> raw)", 4, ob_no_leak),
         ('id-opacity', 'R10', "ids are only used as keys, formatted, passed on or compared with None / other ids - never compared "
-                              "with a literal, tested for truth or used in arithmetic", 10, ob_id_opacity),
-        ('order', 'R10', "loops iterate in file / WBS order (no sorted/reversed/set), elements are appended", 24, ob_order),
+                              "with a literal, tested for truth or used in arithmetic", 12, ob_id_opacity),
+        ('order', 'R10', "loops iterate in file / WBS order (no sorted/reversed/set), elements are appended", 26, ob_order),
     ]:
         o = ctx.ob(oid, fam, text, floor=floor)
         ctx.guarded(o, lambda o, fn=fn: fn(ctx, o, F))
@@ -1072,4 +1072,656 @@ def ob_converters(ctx, o, F):
         _reader_column(ctx, o, rf, r['ctor'], col, vx, cell, W, R)
 
 
-# @@PART3@@
+# ======================================================================================================== C13.io-modes
+def _norm_enc(e):
+    return e.lower().replace('_', '-').replace('utf8', 'utf-8') if isinstance(e, str) else e
+
+
+def _param_default(func, name):
+    a = func.node.args
+    pos = a.posonlyargs + a.args
+    d = dict(zip([x.arg for x in pos][len(pos) - len(a.defaults):], a.defaults))
+    d.update({k.arg: v for k, v in zip(a.kwonlyargs, a.kw_defaults) if v is not None})
+    return d.get(name)
+
+
+def _arg_value(fx, func, call, pos, name):
+    """(kind, value): ('absent', None) | ('const', python value) | ('param', (param name, default const or NotImplemented)) | ('other', node)"""
+    node = None
+    if pos is not None and len(call.args) > pos and not any(isinstance(a, ast.Starred) for a in call.args[:pos + 1]):
+        node = call.args[pos]
+    for k in call.keywords:
+        if k.arg == name:
+            node = k.value
+    if node is None:
+        return 'absent', None
+    x = fx.x(node) if fx.flow.node_of_expr(node) is not None else node
+    if isinstance(x, ast.Constant):
+        return 'const', x.value
+    if isinstance(x, ast.Name) and x.id in func.params:
+        d = _param_default(func, x.id)
+        return 'param', (x.id, d.value if isinstance(d, ast.Constant) else NotImplemented)
+    return 'other', x
+
+
+def _io_side(ctx, o, func, what):
+    """-> dict(open=call, file var, csv=call, mode, encoding, newline, delimiter, extra) or None"""
+    fx = fx_of(ctx, func)
+    opens = [c for c in walk_no_nested(func.node) if isinstance(c, ast.Call) and isinstance(c.func, ast.Name) and c.func.id == 'open']
+    csvs = [c for c in walk_no_nested(func.node) if isinstance(c, ast.Call) and _is_csv_call(func, c, what)]
+    if len(opens) != 1 or len(csvs) != 1:
+        other = [c for c in walk_no_nested(func.node) if isinstance(c, ast.Call) and attr_path(c.func) in
+                 ('csv.DictReader', 'csv.DictWriter', 'io.open', 'codecs.open')]
+        o.undecided(func, func.node, f"{func.name} open()/csv.{what}()", f"expected one open(...) and one csv.{what}(...) in {func.name}, "
+                                                                        f"found {len(opens)} / {len(csvs)}" + (f" (uses {attr_path(other[0].func)})" if other else ''))
+        return None
+    op, cs = opens[0], csvs[0]
+    # the csv object must be built on the opened file
+    fvar = None
+    for n in walk_no_nested(func.node):
+        if isinstance(n, ast.With):
+            for it in n.items:
+                if it.context_expr is op and isinstance(it.optional_vars, ast.Name):
+                    fvar = it.optional_vars.id
+    if fvar is None:
+        dv = [n for n in walk_no_nested(func.node) if isinstance(n, ast.Assign) and n.value is op and isinstance(n.targets[0], ast.Name)]
+        fvar = dv[0].targets[0].id if dv else None
+    arg0 = cs.args[0] if cs.args else None
+    if fvar is None or not (isinstance(arg0, ast.Name) and arg0.id == fvar):
+        o.undecided(func, cs, cs, f"csv.{what}(...) is not built on the file object returned by open(...)")
+        return None
+    o.site(func, cs, f"csv.{what} on the opened file `{fvar}`")
+    d = dict(open=op, csv=cs, func=func)
+    d['mode'] = _arg_value(fx, func, op, 1, 'mode')
+    d['encoding'] = _arg_value(fx, func, op, 3, 'encoding')
+    d['newline'] = _arg_value(fx, func, op, 5, 'newline')
+    d['delimiter'] = _arg_value(fx, func, cs, None, 'delimiter')
+    d['extra'] = {k.arg: k.value for k in cs.keywords if k.arg not in ('delimiter',)}
+    if len(cs.args) > 1:
+        d['extra']['<dialect>'] = cs.args[1]
+    return d
+
+
+def _eff(v):
+    """effective constant of an _arg_value result or NotImplemented"""
+    kind, val = v
+    if kind == 'absent':
+        return None
+    if kind == 'const':
+        return val
+    if kind == 'param':
+        return val[1]
+    return NotImplemented
+
+
+def ob_io_modes(ctx, o, F):
+    prog = ctx.prog
+    rf, wf = prog.func(CSV + '.read_csv'), prog.func(CSV + '.write_csv')
+    r = _io_side(ctx, o, rf, 'reader')
+    w = _io_side(ctx, o, wf, 'writer')
+    if r is None or w is None:
+        return
+    # ---- mode
+    for side, d, good, fn in (('reader', r, ('r', 'rt', None), rf), ('writer', w, ('w', 'wt'), wf)):
+        m = _eff(d['mode'])
+        if m is NotImplemented:
+            o.undecided(fn, d['open'], d['open'], f"{side} open() mode is not a constant")
+        elif m in good:
+            o.site(fn, d['open'], f"{side} mode {m!r}")
+        elif isinstance(m, str) and 'b' in m:
+            o.undecided(fn, d['open'], d['open'], f"{side} opens the file in binary mode {m!r}")
+        else:
+            o.refute(fn, d['open'], f"{side} open mode {m!r}", f"{side} opens the file with mode {m!r}; expected {good[0]!r}"
+                                                              + (" (appending breaks the byte-for-byte fixpoint and duplicates the header)" if m and 'a' in m else ''))
+    # ---- encoding
+    re_, we = _eff(r['encoding']), _eff(w['encoding'])
+    if re_ is NotImplemented or we is NotImplemented:
+        o.undecided(rf, r['open'], 'encoding', "encoding of open() is neither a constant nor a parameter with a constant default")
+    elif re_ is None or we is None:
+        side, d, fn = ('reader', r, rf) if re_ is None else ('writer', w, wf)
+        o.refute(fn, d['open'], f"{side} open() without encoding", f"{side} opens the file without an explicit encoding (platform default) while the "
+                                                                   f"other side uses {we if re_ is None else re_!r}: non-ASCII text does not round trip")
+    else:
+        a, b = _norm_enc(re_), _norm_enc(we)
+        fam = lambda x: 'utf-8' if x in ('utf-8', 'utf-8-sig') else x
+        if fam(a) != fam(b):
+            o.refute(rf, r['open'], f"encoding {re_!r} vs {we!r}", f"reader default encoding {re_!r} differs from the writer's {we!r}")
+        elif fam(a) != 'utf-8':
+            o.refute(rf, r['open'], f"encoding {re_!r}", f"default encoding {re_!r} cannot represent all characters / the UTF-8 BOM clause of the property")
+        elif r['encoding'][0] != w['encoding'][0]:
+            o.refute(wf if w['encoding'][0] == 'const' else rf, (w if w['encoding'][0] == 'const' else r)['open'], 'encoding parameter ignored on one side',
+                     "one side passes its `encoding` parameter to open(), the other hard-codes it")
+        else:
+            o.site(rf, r['open'], f"encoding {re_!r} == {we!r} on both sides")
+        F.reader_encoding = a
+    # ---- newline
+    for side, d, fn in (('reader', r, rf), ('writer', w, wf)):
+        nl = _eff(d['newline'])
+        if nl is NotImplemented:
+            o.undecided(fn, d['open'], d['open'], f"{side} newline argument is not a constant")
+        elif nl in ('', '\n'):
+            o.site(fn, d['open'], f"{side} newline={nl!r} (no translation)")
+        elif nl is None:
+            why = ("universal newline translation turns '\\r' and '\\r\\n' inside quoted text fields into '\\n'" if side == 'reader' else
+                   "the platform's newline translation rewrites '\\n' inside quoted text fields (and the row terminator) on write")
+            o.refute(fn, d['open'], f"{side} open() without newline", f"{side} opens the file without newline='\\n' (or ''): {why}")
+        else:
+            o.refute(fn, d['open'], f"{side} newline={nl!r}", f"{side} opens the file with newline={nl!r}: line breaks inside text fields are translated")
+    # ---- delimiter
+    rd, wd = r['delimiter'], w['delimiter']
+    er, ew = _eff(rd), _eff(wd)
+    if er is NotImplemented or ew is NotImplemented:
+        o.undecided(rf, r['csv'], 'delimiter', "csv delimiter is neither a constant nor a parameter with a constant default")
+    elif er is None or ew is None:
+        side, fn, d = ('reader', rf, r) if er is None else ('writer', wf, w)
+        o.refute(fn, d['csv'], f"{side} without delimiter", f"csv.{side}(...) is built without delimiter= (',' by default) while the other side uses {ew if er is None else er!r}")
+    elif er != ew:
+        o.refute(rf, rf.node, f"delimiter {er!r} vs {ew!r}", f"reader's default delimiter {er!r} differs from the writer's {ew!r}")
+    elif er != DELIMITER:
+        o.refute(rf, rf.node, f"delimiter {er!r}", f"default delimiter is {er!r}; the property's layout uses {DELIMITER!r}")
+    elif rd[0] != wd[0]:
+        fn, d = (wf, w) if wd[0] == 'const' else (rf, r)
+        o.refute(fn, d['csv'], 'delimiter parameter ignored on one side', "one side passes its `delimiter` parameter to csv, the other hard-codes it")
+    else:
+        o.site(rf, r['csv'], f"delimiter default {er!r} on both sides")
+    # ---- other dialect options
+    rx, wx = dict(r['extra']), dict(w['extra'])
+    lt = wx.pop('lineterminator', None)
+    if lt is not None and const_str(lt) not in ('\n', '\r\n'):
+        o.undecided(wf, w['csv'], lt, "unusual lineterminator")
+    if set(rx) != set(wx) or any(src(rx[k]) != src(wx[k]) for k in rx):
+        one = sorted(set(rx) ^ set(wx)) or sorted(k for k in rx if src(rx[k]) != src(wx[k]))
+        fn, d = (rf, r) if any(k in rx for k in one) else (wf, w)
+        o.refute(fn, d['csv'], f"dialect option {', '.join(one)}", f"csv dialect option(s) {', '.join(one)} differ between reader and writer")
+    elif rx:
+        o.undecided(rf, r['csv'], ', '.join(sorted(rx)), "non-default csv dialect on both sides: quoting behaviour is outside the trusted default")
+    # ---- BOM
+    bom = F.bom
+    if getattr(F, 'reader_encoding', None) == 'utf-8-sig':
+        o.site(rf, r['open'], "BOM consumed by the utf-8-sig codec")
+    elif bom is None:
+        o.undecided(rf, rf.node, 'BOM', "header name construction not recognised (see C13.reader-keys)")
+    elif bom[0]:
+        o.site(bom[1], bom[2], f"BOM stripped from header names: {src(bom[2])[:50]}")
+    else:
+        o.refute(bom[1], bom[2], f"header name {src(bom[2])[:50]} keeps BOM", "header names keep a leading U+FEFF: a file with a UTF-8 byte-order mark "
+                                                                               "fails to load (KeyError 'id')")
+
+
+# ======================================================================================================== C13.fields-covered
+def _raw_ctor(ctx, o, fn, clsname):
+    """the single <clsname>(...) call of fn inside a one-variable for loop -> (call, loop) or None"""
+    fx = fx_of(ctx, fn)
+    cs = [c for c in walk_no_nested(fn.node) if isinstance(c, ast.Call) and isinstance(c.func, ast.Name) and c.func.id == clsname]
+    if len(cs) != 1:
+        o.undecided(fn, fn.node, f"{fn.name} {clsname}(...)", f"expected one {clsname}(...) call in {fn.name}, found {len(cs)}")
+        return None
+    fors = fx.enclosing_fors(cs[0])
+    if len(fors) != 1 or not isinstance(fors[0].target, ast.Name):
+        o.undecided(fn, cs[0], f"{fn.name} loop", f"{clsname}(...) is not built inside one `for x in ..` loop")
+        return None
+    return cs[0], fors[0]
+
+
+def _single_copy(ctx, o, fn, dst_name):
+    gcs = generic_copies(ctx, fn)
+    gcs = [g for g in gcs if isinstance(g.dst, ast.Name)]
+    return gcs
+
+
+def _hop_kw(o, fn, call, field, value, srcvar, what):
+    """keyword value must be srcvar.field -> True ok / False reported"""
+    want = ast.Attribute(value=ast.Name(id=srcvar, ctx=ast.Load()), attr=field, ctx=ast.Load())
+    if same(value, want):
+        return True
+    attrs = sorted({n.attr for n in ast.walk(value) if isinstance(n, ast.Attribute) and isinstance(n.value, ast.Name) and n.value.id == srcvar})
+    if attrs and field not in attrs:
+        o.refute(fn, call, f"{what}({field}={src(value)[:50]})", f"{what}(...) receives `{field}` from `{src(value)[:50]}`; expected {srcvar}.{field}")
+    elif isinstance(value, ast.Constant):
+        o.refute(fn, call, f"{what}({field}={src(value)[:50]})", f"{what}(...) receives the constant {src(value)} as `{field}`")
+    else:
+        o.undecided(fn, call, f"{what}({field}={src(value)[:50]})", f"{what}(...) keyword `{field}` is not simply {srcvar}.{field}")
+    return False
+
+
+def ob_fields(ctx, o, F):
+    prog = ctx.prog
+    t2r, r2w = prog.func(RAW + '.tasks_to_raws'), prog.func(RAW + '.raws_to_wbs')
+    rd, wr = prog.func(CSV + '.read_csv'), prog.func(CSV + '.write_csv')
+    task_sn, raw_sn = StaticNames(prog, 'Task'), StaticNames(prog, 'TaskRaw')
+    a = _raw_ctor(ctx, o, t2r, 'TaskRaw')
+    d = _raw_ctor(ctx, o, r2w, 'Task')
+    if a is None or d is None:
+        return
+    (actor, aloop), (dctor, dloop) = a, d
+    fxa, fxd = fx_of(ctx, t2r), fx_of(ctx, r2w)
+    tvar, rvar = aloop.target.id, dloop.target.id
+    akw, astar = call_kwargs(actor, raw_sn.params())
+    dkw, dstar = call_kwargs(dctor, task_sn.params())
+    akw = {k: fxa.x(v, keep=[tvar]) for k, v in akw.items()}
+    dkw = {k: fxd.x(v, keep=[rvar]) for k, v in dkw.items()}
+    # names of the freshly built objects
+    def built_name(fx, ctor):
+        for n in walk_no_nested(fx.f.node):
+            if isinstance(n, ast.Assign) and n.value is ctor and len(n.targets) == 1 and isinstance(n.targets[0], ast.Name):
+                return n.targets[0].id
+        return None
+    rawname, taskname = built_name(fxa, actor), built_name(fxd, dctor)
+    acopies = [g for g in generic_copies(ctx, t2r) if isinstance(g.dst, ast.Name) and g.dst.id == rawname
+               and isinstance(g.src, ast.Name) and g.src.id == tvar]
+    dcopies = [g for g in generic_copies(ctx, r2w) if isinstance(g.dst, ast.Name) and g.dst.id == taskname
+               and isinstance(g.src, ast.Name) and g.src.id == rvar]
+    if len(acopies) > 1 or len(dcopies) > 1:
+        o.undecided(t2r if len(acopies) > 1 else r2w, None, 'several generic copies', "more than one generic attribute copy loop")
+        return
+    acopy = acopies[0] if acopies else None
+    dcopy = dcopies[0] if dcopies else None
+    F.acopy, F.dcopy = acopy, dcopy
+    F.names = dict(tvar=tvar, rvar=rvar, rawname=rawname, taskname=taskname)
+    if astar is not None or dstar is not None:
+        o.undecided(t2r if astar is not None else r2w, None, '** in constructor call', "constructor called with ** arguments")
+        return
+    raw_static = set(raw_sn.inst)
+    csv_src_consts = {n.value for fn in (rd, wr) for n in ast.walk(fn.node) if isinstance(n, ast.Constant) and isinstance(n.value, str)}
+
+    for field in DATA_FIELDS + [CUSTOM]:
+        label = '<custom attribute>' if field == CUSTOM else field
+        kind = FIELD_KIND.get(field, 'text')
+        if field != CUSTOM and field not in task_sn.params():
+            o.undecided(task_sn.init, None, f"Task.__init__ without {field}", f"Task.__init__ has no parameter `{field}` named by the property")
+            continue
+        # ---------------- hop A: Task -> TaskRaw
+        route_a = None
+        if field in akw:
+            if not _hop_kw(o, t2r, actor, field, akw[field], tvar, 'TaskRaw'):
+                continue
+            if raw_sn.stores_param(field) != field:
+                o.refute(raw_sn.init, None, f"TaskRaw.__init__ {field}", f"TaskRaw.__init__ does not store parameter `{field}` as self.{field}")
+                continue
+            route_a = 'kw'
+        else:
+            in_task_dict = field == CUSTOM or field in task_sn.inst
+            if acopy is None:
+                o.refute(t2r, actor, f"{label}: not passed to TaskRaw(...) and no generic attribute copy", f"`{label}` never reaches the TaskRaw")
+                continue
+            env = KeyEnv(ctx, t2r)
+            res, unk = eval_filter(acopy.conds, acopy.keyvar, field, env)
+            if res is None:
+                o.undecided(t2r, acopy.call, unk[0], f"filter of the generic Task -> TaskRaw copy not understood (deciding `{label}`)")
+                continue
+            if not in_task_dict or not res:
+                why = (f"it is not in task.__dict__ (it is a property of Task)" if not in_task_dict else
+                       f"the copy filter `{cond_text(failing_atoms(acopy.conds, acopy.keyvar, field, env))[:70]}` rejects it")
+                o.refute(t2r, actor, f"{label}: not a TaskRaw(...) keyword and skipped by the generic copy",
+                         f"`{label}` is not passed to TaskRaw(...) and the generic attribute copy does not carry it: {why}; the value is lost on write")
+                continue
+            route_a = 'generic'
+        # ---------------- hop B: TaskRaw -> row
+        if field in COLUMNS:
+            if F.row_elts is None:
+                o.undecided(wr, None, f"{field}: row literal", "row literal not recognised (see C13.columns)")
+                continue
+            route_b = 'column'
+        else:
+            if not F.custom_ok or F.discover_conds is None:
+                o.undecided(wr, None, f"{label}: custom columns", "custom column discovery / emission not established (see C13.columns)")
+                continue
+            conds, k, owner = F.discover_conds
+            res, unk = eval_filter(conds, k, field, KeyEnv(ctx, wr))
+            if not res:
+                o.refute(wr, None, f"{label}: no column", f"`{label}` is an attribute of the raw task but gets no column in write_csv")
+                continue
+            route_b = 'custom'
+        # ---------------- hop C: row -> TaskRaw
+        if route_b == 'column':
+            cells = F.reader_cells or {}
+            if field not in cells or cells[field][2] != field:
+                if F.reader_cells is None:
+                    o.undecided(rd, None, f"{field}: reader", "reader cells not recognised (see C13.reader-keys)")
+                else:
+                    o.refute(rd, None, f"{field}: column not read", f"column `{field}` is written but not passed to TaskRaw(...) on read")
+                continue
+            if raw_sn.stores_param(field) != field:
+                o.refute(raw_sn.init, None, f"TaskRaw.__init__ {field}", f"TaskRaw.__init__ does not store parameter `{field}` as self.{field}")
+                continue
+        else:
+            if not F.kwargs_ok:
+                o.undecided(rd, None, f"{label}: **kwargs", "custom attribute transport on read not established (see C13.reader-keys)")
+                continue
+            res, unk = eval_filter(F.kwargs_filter[0], F.kwargs_filter[1], field, KeyEnv(ctx, rd))
+            if not res:
+                o.refute(rd, None, f"{label}: header not admitted to **kwargs", f"column `{label}` is written but dropped on read")
+                continue
+            if field not in raw_sn.params() and not raw_sn.dynamic_kwargs:
+                o.refute(raw_sn.init, None, "TaskRaw.__init__ ignores **kwargs", "TaskRaw.__init__ does not copy **kwargs onto the instance: custom columns are dropped")
+                continue
+        # ---------------- hop D: TaskRaw -> Task
+        if field in dkw:
+            if not _hop_kw(o, r2w, dctor, field, dkw[field], rvar, 'Task'):
+                continue
+            if task_sn.stores_param(field) is None:
+                o.refute(task_sn.init, None, f"Task.__init__ {field}", f"Task.__init__ does not store parameter `{field}`")
+                continue
+        else:
+            if dcopy is None:
+                o.refute(r2w, dctor, f"{label}: not passed to Task(...) and no generic attribute copy", f"`{label}` never reaches the rebuilt Task")
+                continue
+            extra = {rvar: {field}}
+            env = KeyEnv(ctx, r2w, extra)
+            res, unk = eval_filter(dcopy.conds, dcopy.keyvar, field, env)
+            if res is None:
+                o.undecided(r2w, dcopy.call, unk[0], f"filter of the generic TaskRaw -> Task copy not understood (deciding `{label}`)")
+                continue
+            if not res:
+                fa = failing_atoms(dcopy.conds, dcopy.keyvar, field, env)
+                shape = 'dir() membership' if any('dir(' in src(t) or 'hasattr' in src(t) for t, _ in fa) else 'the copy filter'
+                o.refute(r2w, fa[0][0] if fa else dcopy.call, f"{label}: not a Task(...) keyword and skipped by {shape}",
+                         f"`{label}` reaches the file (as a {'custom' if route_b == 'custom' else 'default'} column) but raws_to_wbs neither passes it to "
+                         f"Task(...) nor copies it: `{cond_text(fa)[:70]}` is false for `{label}` (Task already has that attribute); lost by write_csv/read_csv")
+                continue
+        # ---------------- typed field through an untyped custom column
+        if route_b == 'custom' and kind != 'text' and field != CUSTOM:
+            if field in csv_src_consts:
+                o.undecided(wr, None, f"{field}: special handling", f"`{field}` travels through a custom column with special handling the rule does not model")
+            else:
+                o.refute(wr, None, f"{field}: {kind} through untyped custom column", f"`{field}` ({kind}) travels as a custom text column without a converter: "
+                                                                                      f"it comes back as a string")
+            continue
+        o.site(t2r, actor, f"{label}: Task -{route_a}-> TaskRaw -{route_b}-> row -> TaskRaw -> Task")
+
+
+# ======================================================================================================== C13.no-leak
+def ob_no_leak(ctx, o, F):
+    prog = ctx.prog
+    t2r, r2w = prog.func(RAW + '.tasks_to_raws'), prog.func(RAW + '.raws_to_wbs')
+    task_sn, raw_sn = StaticNames(prog, 'Task'), StaticNames(prog, 'TaskRaw')
+    if not hasattr(F, 'dcopy'):
+        o.undecided(r2w, None, 'generic copies', "generic attribute copies not established (see C13.fields-covered)")
+        return
+    dcopy, acopy = F.dcopy, F.acopy
+    # raw -> task: structural keys must not pass; `id` must not pass either (Task.id has no setter)
+    if dcopy is None:
+        o.site(r2w, None, "no generic TaskRaw -> Task copy: nothing can leak")
+        o.site(r2w, None, "no generic TaskRaw -> Task copy: nothing can leak")
+    else:
+        env = KeyEnv(ctx, r2w)
+        for key in STRUCTURAL + [p for p in task_sn.props if p in raw_sn.inst and prog.find_setter('Task', p) is None]:
+            res, unk = eval_filter(dcopy.conds, dcopy.keyvar, key, env)
+            if res is None:
+                o.undecided(r2w, dcopy.call, unk[0], f"filter of the generic TaskRaw -> Task copy not understood (deciding `{key}`)")
+            elif res:
+                if key in STRUCTURAL:
+                    o.refute(r2w, dcopy.call, f"{key} copied onto tasks", f"the generic TaskRaw -> Task attribute copy ({cond_text(dcopy.conds)[:70]}) does not exclude the "
+                                                                          f"structural raw key `{key}`: re-read tasks carry a stale `{key}` attribute that becomes a "
+                                                                          f"custom column on the next write")
+                else:
+                    o.refute(r2w, dcopy.call, f"{key} copied onto tasks", f"the generic copy would assign read-only property `{key}` (AttributeError)")
+            else:
+                o.site(r2w, dcopy.call, f"`{key}` excluded from the raw -> Task copy")
+    # task -> raw: private fields must not pass
+    if acopy is None:
+        o.site(t2r, None, "no generic Task -> TaskRaw copy: nothing can leak")
+    else:
+        env = KeyEnv(ctx, t2r)
+        leaked, unknown = [], None
+        for key in task_sn.inst:
+            if not key.startswith('_'):
+                continue
+            res, unk = eval_filter(acopy.conds, acopy.keyvar, key, env)
+            if res is None:
+                unknown = unk[0]
+            elif res:
+                leaked.append(key)
+        if leaked:
+            o.refute(t2r, acopy.call, f"private fields copied onto raws", f"the generic Task -> TaskRaw copy admits private fields {leaked[:3]}: they become custom columns")
+        elif unknown is not None:
+            o.undecided(t2r, acopy.call, unknown, "filter of the generic Task -> TaskRaw copy not understood")
+        else:
+            o.site(t2r, acopy.call, "private Task fields excluded from the Task -> raw copy")
+
+
+# ======================================================================================================== C13.id-opacity
+ID_ATTRS = ('id', 'parent_id')
+SENTINELS = ('EMPTY_TASK_ID',)
+
+
+def _id_funcs(prog):
+    out = [prog.func(RAW + '.tasks_to_raws'), prog.func(RAW + '.raws_to_wbs'), prog.func(CSV + '.read_csv'), prog.func(CSV + '.write_csv')]
+    return out
+
+
+def ob_id_opacity(ctx, o, F):
+    prog = ctx.prog
+    task = prog.cls('Task')
+    for m in ('__bool__', '__len__'):
+        if prog.find_method('Task', m) is not None:
+            o.undecided(prog.find_method('Task', m), None, f"Task.{m}", f"Task defines {m}: truth tests on tasks are no longer presence tests")
+    for f in _id_funcs(prog):
+        fx = fx_of(ctx, f)
+        pm = parent_map(f.node)
+        # names that hold ids: loop / comprehension variables over *.predecessor_ids, locals assigned from an id expression
+        idnames = set()
+        for n in ast.walk(f.node):
+            if isinstance(n, (ast.For, ast.comprehension)) and isinstance(n.target, ast.Name):
+                it = n.iter
+                if isinstance(it, ast.Attribute) and it.attr == 'predecessor_ids':
+                    idnames.add(n.target.id)
+            elif isinstance(n, ast.Assign) and len(n.targets) == 1 and isinstance(n.targets[0], ast.Name):
+                v = n.value
+                if isinstance(v, ast.Attribute) and v.attr in ID_ATTRS:
+                    idnames.add(n.targets[0].id)
+
+        def is_id(n):
+            if isinstance(n, ast.Attribute) and n.attr in ID_ATTRS and isinstance(n.ctx, ast.Load):
+                return True
+            return isinstance(n, ast.Name) and n.id in idnames and isinstance(n.ctx, ast.Load)
+
+        for n in ast.walk(f.node):
+            if not is_id(n):
+                continue
+            p = pm.get(id(n))
+            # climb through `not`
+            verdict = None
+            if isinstance(p, ast.Compare):
+                others = [x for x in [p.left] + p.comparators if x is not n]
+                for x, op in zip([p.left] + p.comparators, [None] + p.ops):
+                    pass
+                for x in others:
+                    if isinstance(x, ast.Constant) and x.value is None:
+                        continue
+                    if is_id(x) or (isinstance(x, ast.Name) and x.id in SENTINELS) or attr_path(x) == 'sys.maxsize':
+                        continue
+                    if isinstance(x, ast.Constant) or (isinstance(x, ast.UnaryOp) and isinstance(x.operand, ast.Constant)) \
+                            or (const_seq(x) is not None):
+                        verdict = ('refute', f"{src(p)}", f"id `{src(n)}` is compared with the literal `{src(x)}` in `{src(p)[:60]}`: ids are opaque "
+                                                          f"(0 and negative numbers are ordinary ids)")
+                        break
+                    if any(isinstance(op, (ast.In, ast.NotIn)) for op in p.ops):
+                        continue       # membership in a container of ids / keys
+                    verdict = ('undecided', src(p), f"id `{src(n)}` is compared with `{src(x)[:40]}`")
+                    break
+            elif (isinstance(p, (ast.If, ast.While, ast.IfExp)) and p.test is n) or isinstance(p, ast.BoolOp) \
+                    or (isinstance(p, ast.UnaryOp) and isinstance(p.op, ast.Not)) or (isinstance(p, ast.comprehension) and n in p.ifs):
+                verdict = ('refute', f"truth test of {src(n)}", f"id `{src(n)}` is tested for truth (`{src(p)[:60].splitlines()[0]}`): id 0 is falsy")
+            elif isinstance(p, ast.BinOp) or (isinstance(p, ast.UnaryOp) and not isinstance(p.op, ast.Not)) or isinstance(p, ast.AugAssign):
+                verdict = ('refute', f"arithmetic on {src(n)}", f"id `{src(n)}` is used in arithmetic `{src(p)[:60]}`: ids are opaque")
+            elif isinstance(p, ast.Call) and isinstance(p.func, ast.Name) and p.func.id in ('abs', 'bool') and n in p.args:
+                verdict = ('refute', f"{p.func.id}({src(n)})", f"id `{src(n)}` is passed through {p.func.id}()")
+            if verdict is None:
+                o.site(f, n, f"id `{src(n)}` used as {type(p).__name__.lower()} operand")
+            elif verdict[0] == 'refute':
+                o.refute(f, n, verdict[1], verdict[2])
+            else:
+                o.undecided(f, n, verdict[1], verdict[2])
+    # ---- parent_id / predecessor_ids as written by tasks_to_raws
+    t2r = prog.func(RAW + '.tasks_to_raws')
+    a = _raw_ctor(ctx, o, t2r, 'TaskRaw')
+    if a is None:
+        return
+    actor, aloop = a
+    fx = fx_of(ctx, t2r)
+    tvar = aloop.target.id
+    kw, _ = call_kwargs(actor, StaticNames(prog, 'TaskRaw').params())
+    par = ast.Attribute(value=ast.Name(id=tvar, ctx=ast.Load()), attr='parent', ctx=ast.Load())
+    if 'parent_id' not in kw:
+        o.refute(t2r, actor, 'TaskRaw(...) without parent_id', "the parent's id is not recorded: the hierarchy is lost")
+    else:
+        e = fx.x(kw['parent_id'], keep=[tvar])
+        good = True
+        have_value = False
+        for conds, leaf in split_cases(ctx, t2r, e):
+            facts, unk = sym_facts(conds, par)
+            if isinstance(leaf, ast.Constant) and leaf.value is None:
+                if not (facts & {'none', 'falsy'}):
+                    good = False
+                    if not any(isinstance(n, ast.Compare) and any(isinstance(x, ast.Constant) and x.value is not None for x in n.comparators)
+                               for t, _ in conds for n in ast.walk(t)):
+                        o.undecided(t2r, actor, f"parent_id None when {cond_text(conds)[:70]}", "parent_id is None under a condition other than `no parent`")
+                continue
+            if same(leaf, par):
+                continue        # `t.parent and t.parent.id` short circuit value when parent is falsy (None)
+            want = ast.Attribute(value=par, attr='id', ctx=ast.Load())
+            if same(leaf, want):
+                have_value = True
+                if unk:
+                    good = False        # extra condition on the value branch: reported by the literal scan or undecided below
+                    if not any(isinstance(n, ast.Compare) for t, _ in unk for n in ast.walk(t)):
+                        o.undecided(t2r, actor, f"parent_id when {cond_text(unk)[:70]}", "parent_id is recorded under an extra condition")
+                elif not (facts & {'truthy', 'notnone'}):
+                    good = False
+                    o.refute(t2r, actor, f"parent_id={src(leaf)} unguarded", "t.parent.id is read without testing that the task has a parent (root tasks raise)")
+                continue
+            good = False
+            o.refute(t2r, actor, f"parent_id={src(leaf)[:60]}", f"parent_id is recorded as `{src(leaf)[:60]}`; expected {tvar}.parent.id")
+        if good and have_value:
+            o.site(t2r, actor, f"parent_id = {tvar}.parent.id iff the task has a parent")
+    if 'predecessor_ids' not in kw:
+        o.refute(t2r, actor, 'TaskRaw(...) without predecessor_ids', "predecessor ids are not recorded: dependencies are lost")
+    else:
+        e = fx.x(kw['predecessor_ids'], keep=[tvar])
+        pr = ast.Attribute(value=ast.Name(id=tvar, ctx=ast.Load()), attr='predecessors', ctx=ast.Load())
+        if isinstance(e, ast.ListComp) and len(e.generators) == 1 and isinstance(e.generators[0].target, ast.Name):
+            g = e.generators[0]
+            v = g.target.id
+            if not same(g.iter, pr):
+                if _mentions(g.iter, pr):
+                    o.refute(t2r, actor, f"predecessor_ids over {src(g.iter)[:50]}", f"predecessor ids are taken from `{src(g.iter)[:50]}`, not from {tvar}.predecessors in order")
+                else:
+                    o.refute(t2r, actor, f"predecessor_ids over {src(g.iter)[:50]}", f"predecessor ids are taken from `{src(g.iter)[:50]}`; expected {tvar}.predecessors")
+            elif g.ifs:
+                if not any(isinstance(n, ast.Attribute) and n.attr in ID_ATTRS for c in g.ifs for n in ast.walk(c)):
+                    o.refute(t2r, actor, f"predecessor_ids filter {src(g.ifs[0])[:50]}", f"predecessors are filtered by `{src(g.ifs[0])[:50]}` when flattening: some dependencies are lost")
+            elif not (isinstance(e.elt, ast.Attribute) and e.elt.attr == 'id' and isinstance(e.elt.value, ast.Name) and e.elt.value.id == v):
+                o.refute(t2r, actor, f"predecessor_ids elt {src(e.elt)[:50]}", f"predecessor list records `{src(e.elt)[:50]}` instead of the predecessor's id")
+            else:
+                o.site(t2r, actor, f"predecessor_ids = [p.id for p in {tvar}.predecessors]")
+        else:
+            o.undecided(t2r, actor, e, "predecessor_ids is not a list comprehension over the task's predecessors")
+
+
+# ======================================================================================================== C13.order
+_REORDER = ('sorted', 'reversed', 'set', 'frozenset', 'shuffle', 'sample')
+_REORDER_M = ('sort', 'reverse', 'shuffle')
+
+
+def _order_funcs(prog):
+    fs = _id_funcs(prog)
+    for q, fn in prog.funcs.items():
+        if q.startswith(CSV + '.__') and fn.kind == 'function':
+            fs.append(fn)
+    return fs
+
+
+def ob_order(ctx, o, F):
+    prog = ctx.prog
+    for f in _order_funcs(prog):
+        fx = fx_of(ctx, f)
+        pm = parent_map(f.node)
+        for n in ast.walk(f.node):
+            # ---- loops and comprehensions
+            if isinstance(n, (ast.For, ast.comprehension)):
+                it = n.iter
+                itx = fx.x(it) if fx.flow.node_of_expr(it) is not None else it
+                bad = None
+                for c in ast.walk(itx):
+                    if isinstance(c, ast.Call) and isinstance(c.func, ast.Name) and c.func.id in _REORDER:
+                        bad = c
+                    elif isinstance(c, ast.Call) and isinstance(c.func, ast.Attribute) and c.func.attr in _REORDER and attr_path(c.func.value) == 'random':
+                        bad = c
+                    elif isinstance(c, ast.Subscript) and isinstance(c.slice, ast.Slice) and c.slice.step is not None:
+                        bad = c
+                    elif isinstance(c, ast.Set) or isinstance(c, ast.SetComp):
+                        bad = c
+                if bad is not None:
+                    o.refute(f, it, f"loop over {src(it)[:60]}", f"`{src(it)[:60]}` iterates in an order other than file / WBS order (`{src(bad)[:40]}`)")
+                else:
+                    o.site(f, it, f"in-order iteration of {src(it)[:50]}")
+            # ---- reordering calls outside loop headers
+            elif isinstance(n, ast.Call):
+                if isinstance(n.func, ast.Attribute) and n.func.attr in _REORDER_M and not isinstance(pm.get(id(n)), (ast.For, ast.comprehension)):
+                    o.refute(f, n, src(n)[:80], f"`{src(n)[:60]}` reorders a sequence that must stay in file / WBS order")
+                elif isinstance(n.func, ast.Name) and n.func.id in ('sorted', 'reversed') and not _inside_iter(n, pm):
+                    o.refute(f, n, src(n)[:80], f"`{src(n)[:60]}` reorders a sequence that must stay in file / WBS order")
+                elif isinstance(n.func, ast.Attribute) and n.func.attr in ('insert', 'appendleft'):
+                    o.refute(f, n, src(n)[:80], f"`{src(n)[:60]}` does not append at the end: sibling / row order is not preserved")
+                elif isinstance(n.func, ast.Attribute) and n.func.attr == 'append' and len(n.args) == 1:
+                    o.site(f, n, f"append: {src(n)[:60]}")
+            elif isinstance(n, ast.Assign) and len(n.targets) == 1 and isinstance(n.targets[0], ast.Name) and isinstance(n.value, ast.BinOp) \
+                    and isinstance(n.value.op, ast.Add) and isinstance(n.value.right, ast.Name) and n.value.right.id == n.targets[0].id \
+                    and isinstance(n.value.left, ast.List):
+                o.refute(f, n, src(n)[:80], f"`{src(n)[:60]}` prepends: order is reversed")
+    # ---- the sequences handed from stage to stage
+    wr, rd = prog.func(CSV + '.write_csv'), prog.func(CSV + '.read_csv')
+    t2r, r2w = prog.func(RAW + '.tasks_to_raws'), prog.func(RAW + '.raws_to_wbs')
+    if F.row_loop is not None:
+        fx = fx_of(ctx, wr)
+        it = fx.x(F.row_loop.iter)
+        wbsp = wr.params[0] if wr.params else None
+        if isinstance(it, ast.Call) and isinstance(it.func, ast.Name) and it.func.id == 'tasks_to_raws' and len(it.args) == 1 \
+                and attr_path(it.args[0]) == f"{wbsp}.tasks":
+            o.site(wr, F.row_loop, f"rows are written for tasks_to_raws({wbsp}.tasks) in order")
+        elif isinstance(it, ast.Call) and isinstance(it.func, ast.Name) and it.func.id == 'tasks_to_raws' and len(it.args) == 1 \
+                and attr_path(it.args[0]) in (f"{wbsp}.roots",):
+            o.refute(wr, F.row_loop, f"rows for {src(it)[:60]}", f"rows are written for `{src(it.args[0])}` only; expected every task of {wbsp}.tasks")
+        else:
+            o.undecided(wr, F.row_loop, it, f"rows are not written for tasks_to_raws({wbsp}.tasks)")
+    for fn, param_i in ((t2r, 0), (r2w, 0)):
+        fx = fx_of(ctx, fn)
+        p = fn.params[param_i]
+        loops = [n for n in walk_no_nested(fn.node) if isinstance(n, ast.For) and isinstance(fx.x(n.iter), ast.Name) and fx.x(n.iter).id == p
+                 and not fx.enclosing_fors(n)]
+        for lp in loops:
+            o.site(fn, lp, f"{fn.name} iterates its input `{p}` front to back")
+        if not loops:
+            o.undecided(fn, fn.node, f"{fn.name} input loop", f"{fn.name} does not loop over its parameter `{p}` directly")
+    # returns: tasks_to_raws returns the list it appended to; read_csv returns raws_to_wbs(<accumulated rows>)
+    fx = fx_of(ctx, t2r)
+    rets = [n for n in walk_no_nested(t2r.node) if isinstance(n, ast.Return)]
+    if len(rets) == 1 and isinstance(rets[0].value, ast.Name) and rets[0].value.id in fx.acc:
+        o.site(t2r, rets[0], "tasks_to_raws returns the accumulated list")
+    else:
+        o.undecided(t2r, t2r.node, 'tasks_to_raws return', "tasks_to_raws does not return its accumulator list directly")
+    fx = fx_of(ctx, rd)
+    rets = [n for n in walk_no_nested(rd.node) if isinstance(n, ast.Return)]
+    if len(rets) == 1 and rets[0].value is not None:
+        rv = fx.x(rets[0].value)
+        if isinstance(rv, ast.Call) and isinstance(rv.func, ast.Name) and rv.func.id == 'raws_to_wbs' and len(rv.args) == 1 \
+                and isinstance(rv.args[0], ast.Name) and rv.args[0].id in fx.acc:
+            o.site(rd, rets[0], "read_csv returns raws_to_wbs(<rows in file order>)")
+        else:
+            o.undecided(rd, rets[0], rv, "read_csv does not return raws_to_wbs(<accumulated rows>)")
+    else:
+        o.undecided(rd, rd.node, 'read_csv return', "read_csv has no single return")
+
+
+def _inside_iter(n, pm):
+    """n is (part of) the iterable of a for / comprehension (already judged there)"""
+    cur = n
+    while id(cur) in pm:
+        p = pm[id(cur)]
+        if isinstance(p, (ast.For, ast.comprehension)) and p.iter is cur:
+            return True
+        if isinstance(p, ast.stmt):
+            return False
+        cur = p
+    return False
